@@ -1147,6 +1147,33 @@ func c04RuleG(e *c04Env) {
 				return false
 			}
 			trimmed := isTrim(sIn)
+			if prm, ok := sIn.(*ssa.Parameter); ok && !trimmed {
+				// S is a parameter of an extracted helper: every call site inside the package hands over a trimmed string
+				fn := prm.Parent()
+				idx := -1
+				for i, fp := range fn.Params {
+					if fp == prm {
+						idx = i
+					}
+				}
+				if node := c.CallGraph().Nodes[fn]; node != nil && idx >= 0 {
+					sites, good := 0, 0
+					for _, e := range node.In {
+						if e.Site == nil || e.Caller == nil || e.Caller.Func == nil || e.Site.Common().IsInvoke() {
+							continue
+						}
+						args := e.Site.Common().Args
+						if idx >= len(args) {
+							continue
+						}
+						sites++
+						if isTrim(c04Src(args[idx], e.Site, 0)) || isTrim(args[idx]) {
+							good++
+						}
+					}
+					trimmed = sites > 0 && sites == good
+				}
+			}
 			if !trimmed {
 				for _, ci := range core.Calls(split) {
 					if v, ok := ci.(*ssa.Call); ok && isTrim(v) {
